@@ -25,16 +25,18 @@ def run(ctx):
     ctx.add_obligations(vcheck.coq_props("Store", "C02"))
     ctx.cov["checker_cmd"] = ("coqc -Q coq/Store BWStore coq/Store/Props/C02.v; work/bin/h_store -mode hist -c02 | "
                               "coqc work/C02/cases_*.v (digest of all_queries x default options per state, vm_compute)")
-    n = 30 if ctx.quick() else 1200
+    n = 30 if ctx.quick() else 600
     hargs = ["-maxops", 30, "-usize", 24]
     if ctx.replay and sc.replay(ctx, ["-c02"], hargs, (False, True, False)):
         return
     hists = sc.hstore(["-mode", "hist", "-n", n, "-seed", ctx.seed, "-c02"] + hargs)
     bad = sc.model_mismatches(ctx, "cases_c02", hists, False, True, False, shard=100)
     sc.report(ctx, ctx.seed, hargs, hists, bad)
+    sc.oracle_check(ctx, ctx.seed, hargs, hists, *(False, True, False))
     dist = sc.distribution(hists)
     ctx.cov.update(dist)
     st = [sum(h["lookup_stats"][i] for h in hists) for i in range(4)]
+    ctx.cov["distinct_nonempty_lookups"] = sum(h["lookup_distinct_nonempty"] for h in hists)
     ctx.cov["lookup_results"] = {"empty": st[0], "non_empty": st[1], "error": st[2], "elements_returned": st[3]}
     lookups = sum(h["lookups"] for h in hists)
     ctx.cov["evaluations"] = lookups
@@ -42,15 +44,16 @@ def run(ctx):
     for h in hists:
         if nontrivial(h):
             seen.add(vcheck.case_hash([h["strs"], [s["op"] for s in h["steps"]]]))
-    ctx.cov["distinct_nontrivial"] = len(seen)
+    ctx.cov["distinct_histories_with_remove_then_nonempty"] = len(seen)
+    ctx.cov["distinct_nontrivial"] = sum(h["lookup_distinct_nonempty"] for h in hists)
     ctx.cov["states_compared"] = dist["steps"]
     ctx.cov["rule"] = ("one evaluation = one lookup (ten indexed methods and Triples(), default options) on one graph object "
                        "in one state; after EVERY step of a history all methods are called with every argument tuple from "
                        "pools of stored and non-stored nodes, predicates (immutable and temporal sharing an id, the same "
                        "instant in two zones, neighbours at 1 ns) and objects (nodes, literals, predicates), on every graph "
-                       "object; results are digested on both sides and the digests compared per state. distinct_nontrivial "
-                       "counts distinct histories (universe, operations) that contain a state with a non-empty graph after "
-                       "a remove")
+                       "object; results are digested on both sides and the digests compared per state. distinct_nontrivial = "
+                       "lookups with a NON-EMPTY result, distinct by (universe, content of the graph object, method, argument "
+                       "tuple), measured by the harness")
     ctx.cov["samples"] = [{"universe": h["strs"][:4], "operations": [s["op"] for s in h["steps"][:5]],
                            "lookups": h["lookups"], "digest_after_last_step": h["steps"][-1]["obs"]["c02"]} for h in hists[:2]]
     if not ctx.quick():
@@ -63,4 +66,6 @@ def run(ctx):
 
 
 def search(ctx, broken):
-    return None
+    """failing-input search when an obligation or the build breaks: the implementation against the Python reading of
+    the SPEC (checks/store_oracle.py) on fresh histories"""
+    return sc.oracle_search(ctx, ["-c02"], ["-maxops", 30, "-usize", 24], (False, True, False))
